@@ -493,6 +493,7 @@ func (interp *Interpreter) resizeFrame() {
 // Eval evaluates Go code represented as a string. Eval returns the last result
 // computed by the interpreter, and a non nil error in case of failure.
 func (interp *Interpreter) Eval(src string) (res reflect.Value, err error) {
+	interp.resetDone()
 	return interp.eval(src, "", true)
 }
 
@@ -500,6 +501,11 @@ func (interp *Interpreter) Eval(src string) (res reflect.Value, err error) {
 // by the interpreter, and a non nil error in case of failure.
 // The main function of the main package is executed if present.
 func (interp *Interpreter) EvalPath(path string) (res reflect.Value, err error) {
+	interp.resetDone()
+	return interp.evalPath(path)
+}
+
+func (interp *Interpreter) evalPath(path string) (res reflect.Value, err error) {
 	if !isFile(interp.opt.filesystem, path) {
 		_, err := interp.importSrc(mainID, path, NoTest)
 		return res, err
@@ -524,7 +530,7 @@ func (interp *Interpreter) EvalPathWithContext(ctx context.Context, path string)
 	done := make(chan struct{})
 	go func() {
 		defer close(done)
-		res, err = interp.EvalPath(path)
+		res, err = interp.evalPath(path)
 	}()
 
 	select {
@@ -560,7 +566,7 @@ func (interp *Interpreter) eval(src, name string, inc bool) (res reflect.Value, 
 		return res, err
 	}
 
-	return interp.Execute(prog)
+	return interp.execute(prog)
 }
 
 // EvalWithContext evaluates Go code represented as a string. It returns
@@ -584,7 +590,7 @@ func (interp *Interpreter) EvalWithContext(ctx context.Context, src string) (ref
 			}
 			close(done)
 		}()
-		v, err = interp.Eval(src)
+		v, err = interp.eval(src, "", true)
 	}()
 
 	select {
@@ -602,6 +608,21 @@ func (interp *Interpreter) EvalWithContext(ctx context.Context, src string) (ref
 func (interp *Interpreter) stop() {
 	atomic.AddUint64(&interp.id, 1)
 	close(interp.done)
+}
+
+// resetDone replaces the cancellation channel if a previous evaluation was
+// cancelled, so that its closed channel does not abort the channel operations
+// of an evaluation started without context.
+func (interp *Interpreter) resetDone() {
+	interp.mutex.Lock()
+	if interp.done != nil {
+		select {
+		case <-interp.done:
+			interp.done = make(chan struct{})
+		default:
+		}
+	}
+	interp.mutex.Unlock()
 }
 
 func (interp *Interpreter) runid() uint64 { return atomic.LoadUint64(&interp.id) }
